@@ -1,5 +1,8 @@
-"""C14 (column half) — formatted lines are the concatenation of the enabled columns; switching a column off
-removes exactly that column; colouring never changes the text; the process column is `name(pid)` / `Error: tid N`."""
+"""C14 — formatted lines are the concatenation of the enabled columns; switching a column off removes exactly that
+column; colouring never changes the text; the process column is `name(pid)` / `Error: tid N` for the process the dump
+declares for the thread AT THAT POINT OF THE STREAM (sections `process-column`, `process-column-kevents`: thread map
+superseded by the new-thread / exec / terminate-pid / sampler records up to and including the event that completed
+the trace)."""
 import ast
 import contextlib
 import io
@@ -17,6 +20,9 @@ TRUSTED = ['Model/Format.lean written statement by statement like _format_kevent
            "Python format specifications (f'{s:<58}', f'{n:>11}', f'{n:016x}', hex(), str(int), bytes.__repr__) "
            'modelled in Model/Format.lean and diffed against CPython in section format-primitives',
            'DgbFuncQual reflected into Gen/Enums.lean',
+           'Model/Declared.lean (declaredTables: a plain fold over the prefix on the declarative pairing specification) is '
+           'PROVED equal to the tables of the whole-TracesParser model Model/Trace.lean (tables_are_fold); that model and the '
+           'laziness of formatted_traces are tied to the code by section `process-column` (driver command fmtp)',
            'pygments highlight() and termcolor colored() are external: abstract parameters of the model; the '
            'transparency theorems hold under explicit assumptions that the correspondence checks on every generated '
            'line by stripping ANSI escapes from the real coloured output']
@@ -26,8 +32,12 @@ ASSUMPTIONS = ['not all five wall-clock parameters are set (the tool never sets 
                'thread ids / timestamps / addresses / offsets are non-negative integers; texts hold no lone surrogates',
                'for trace lines: erasing the highlighted body gives the body (false for pygments on bodies with a '
                'carriage return or a leading/trailing newline: known finding K7)',
-               'the lookup tables are a parameter here; their evolution along the stream belongs to process_column_spec '
-               '(another slice)']
+               'process column along the stream: a request whose generator is consumed line by line (formatted_traces is a lazy '
+               'map); feed_generator raises no exception on the prefix; the code table names no table-writing handler for the '
+               'page-fault sub-record ids 0x1320008..0x1320014 (nested parse_event_list of handle_mach_vmfault; true of the '
+               'bundled table); pids are unsigned (thread map: 32-bit, record words: 64-bit), so the formatter\'s absent-marker '
+               '-1 never occurs in the pipeline\'s tables',
+               'event lines (formatted_kevents) never run the trace decoders: their process column is the thread map alone']
 
 ANSI = re.compile(r'\x1b\[[0-9;]*m')
 SWITCHES = ['show_timestamp', 'show_name', 'show_func_qual', 'show_tid', 'show_process', 'show_args']
@@ -456,6 +466,204 @@ def k7_oracle(case, got):
     return trace_oracle(dict(case, color=True), on)
 
 
+# ---------------------------------------------------------------- the process column along the stream
+
+PC_NAMES = ['launchd', 'kernel_task', 'a', '', 'naïve', 'x' * 19, 'with space', '(1)']
+
+
+def _pl():
+    from .. import pipeline as PL
+    return PL
+
+
+def gen_pc_streams(rng, n):
+    """Version-2 dumps: a thread map (threads declared twice, pids named twice, undeclared threads) and a stream of
+    complete operations among which new-thread pairs, exec pairs (data + string, sometimes only one), terminate-pid
+    records and sampler windows with thread-info records re-declare threads while traces of those threads go by."""
+    PL = _pl()
+    out = []
+    for _ in range(n):
+        tids = rng.sample([5, 6, 7, 99, 1000, 1001, 2 ** 40 + 3, 2 ** 63 + 1], 4)
+        pids = [1, 2, 42, 77, 99999, 2 ** 31]
+        tmap = [[t, rng.choice(pids), rng.choice(PC_NAMES)] for t in rng.sample(tids, rng.randrange(0, 4))]
+        if tmap and rng.random() < 0.4:
+            tmap.append([tmap[0][0], rng.choice(pids), rng.choice(PC_NAMES)])
+        if tmap and rng.random() < 0.3:
+            tmap.append([rng.choice(tids), tmap[0][1], rng.choice(PC_NAMES)])
+        s = PL.Stream(rng)
+        s.ts = 256 * rng.randrange(1, 1000)
+        for _ in range(rng.randrange(1, 10)):
+            tid = rng.choice(tids)
+            k = rng.random()
+            if k < 0.22:
+                wd, ws = rng.choice([(True, True)] * 4 + [(True, False), (False, True)])
+                s.newthread(tid, rng.choice(tids + [4242]), rng.choice(pids + [555]), 'nt%d' % rng.randrange(30), wd, ws)
+            elif k < 0.34:
+                wd, ws = rng.choice([(True, True)] * 4 + [(True, False), (False, True)])
+                s.exec_(tid, rng.choice(pids + [556]), 'ex%d' % rng.randrange(30), wd, ws)
+            elif k < 0.44:
+                s.ev('TRACE_DATA_THREAD_TERMINATE_PID', PL.NONE, tid, [rng.choice(pids + [557]), 7, 0, 0])
+            elif k < 0.56:
+                s.sample(tid, rng.choice([1, 1, 9, 0, 8]), thd=(rng.choice(pids + [558]), rng.choice(tids), 1)
+                         if rng.random() < 0.8 else None)
+            elif k < 0.62:                      # two thread-info records in one window: END re-applies the FIRST
+                fl = rng.choice([1, 0])
+                t2 = rng.choice(tids)
+                s.ev('PERF_Event', PL.START, tid, [fl, 1, 0, 0])
+                s.ev('PERF_THD_Data', PL.NONE, tid, [rng.choice(pids), t2, 0x1000, 1])
+                s.ev('PERF_THD_Data', PL.NONE, tid, [559, t2, 0x1000, 1])
+                s.ev('PERF_Event', PL.END, tid, [fl, 1, 0, 0])
+            elif k < 0.78:
+                s.syscall('BSC_getpid', tid, [0, 0, 0, 0], [0, rng.randrange(1000), 0, 0])
+            elif k < 0.86:
+                s.syscall('BSC_open', tid, [1, 2, 3, 4], [0, 3, 0, 0], [('/p/%d' % rng.randrange(99) + 'x' * rng.choice([0, 30]), 9)])
+            elif k < 0.93:
+                s.ev('MACH_SCHED', PL.NONE, tid, [1, 2, 3, 4])
+            else:
+                s.ev('TRACE_STRING_PROC_EXIT', PL.NONE, tid, data=s.name32('exit%d' % rng.randrange(9)))
+        recs = s.recs
+        codes = {str(k): v for k, v in PL.restricted_codes(recs, extra=('VFS_LOOKUP',)).items()}
+        out.append({'tmap': tmap, 'events': [r.hex() for r in recs], 'codes': codes})
+    return out
+
+
+def pc_file(s):
+    from .. import streams
+    return streams.v2_file([tuple(x) for x in s['tmap']], [bytes.fromhex(h) for h in s['events']])
+
+
+def pc_line(case):
+    PL = _pl()
+    s = case['stream']
+    codes = {int(k): v for k, v in s['codes'].items()}
+    return ' '.join(['fmtp', PL.codes_arg(codes), tmap_arg(s['tmap'])] + s['events'])
+
+
+def pc_run(s):
+    """formatted_traces (colour off; timestamp, thread id and process columns on) consumed lazily, line by line; the
+    bodies and first records come from a separate plain traces() request on another parser object."""
+    codes = {int(k): v for k, v in s['codes'].items()}
+    data = pc_file(s)
+    q = make_parser('100110')
+    firsts, err2 = [], '-'
+    try:
+        for t in q.traces(io.BytesIO(data), codes):
+            firsts.append((t.ktraces[0].timestamp, t.ktraces[0].tid, str(t)))
+    except Exception as e:
+        err2 = core.err_name(e)
+    p = make_parser('100110')
+    lines, err = [], '-'
+    try:
+        for ln in p.formatted_traces(io.BytesIO(data), codes):
+            lines.append(ln)
+    except Exception as e:
+        err = core.err_name(e)
+    return lines, err, firsts, err2
+
+
+def pc_impl(case):
+    lines, err, firsts, err2 = pc_run(case['stream'])
+    items = []
+    for ln, (ts, tid, body) in zip(lines, firsts):
+        prefix = '%d %s ' % (ts, ('%d' % tid).rjust(11))
+        if not ln.startswith(prefix) or not ln.endswith(body):
+            items.append('%d:%d:%s' % (ts, tid, hs('?' + ln)))
+            continue
+        items.append('%d:%d:%s' % (ts, tid, hs(ln[len(prefix):len(ln) - len(body)].rstrip(' '))))
+    return 'ok %s ;err=%s' % (' '.join(items) or '-', err)
+
+
+def pc_expected_tables(s, upto):
+    """ORACLE: the thread map (later entry wins) superseded, in stream order, by the map-updating records among
+    events[0..upto] — written from the property statement, independently of the model and of the decoders."""
+    from pykdebugparser.kevent import from_kd_buf
+    codes = {int(k): v for k, v in s['codes'].items()}
+    tp, pn = {}, {}
+    for t, p_, n in s['tmap']:
+        tp[t] = p_
+        pn[p_] = n
+    pend_new, pend_exec, sampler = {}, {}, {}
+    for h in s['events'][:upto + 1]:
+        e = from_kd_buf(bytes.fromhex(h))
+        name, a, q = codes.get(e.eventid), e.values, e.func_qualifier
+        single = q in (0, 3)
+        if name == 'TRACE_DATA_NEWTHREAD' and single:
+            tp[a[0]] = a[1]
+            pend_new[e.tid] = a[1]
+        elif name == 'TRACE_STRING_NEWTHREAD' and single:
+            if e.tid in pend_new:
+                pn[pend_new[e.tid]] = e.data.replace(b'\0', b'').decode()
+        elif name == 'TRACE_DATA_EXEC' and single:
+            pend_exec[e.tid] = a[0]
+        elif name == 'TRACE_STRING_EXEC' and single:
+            if e.tid in pend_exec:
+                pn[pend_exec[e.tid]] = e.data.replace(b'\0', b'').decode()
+        elif name == 'TRACE_DATA_THREAD_TERMINATE_PID' and single:
+            tp[e.tid] = a[0]
+        elif name == 'PERF_THD_Data' and single:
+            tp[a[1]] = a[0]
+            if e.tid in sampler:
+                sampler[e.tid][1].append((a[1], a[0]))
+        elif name == 'PERF_Event' and q == 1:
+            sampler[e.tid] = (a[0], [])
+        elif name == 'PERF_Event' and q == 2 and e.tid in sampler:
+            flags, infos = sampler.pop(e.tid)
+            if flags & 1 and infos:                 # the sampler window re-declares its FIRST thread-info record
+                tp[infos[0][0]] = infos[0][1]
+    return tp, pn
+
+
+def pc_trigger(s, first_ts):
+    """Index of the event that completes the trace whose first record has timestamp `first_ts` (streams of complete
+    operations: the END of the same thread and code that follows the START)."""
+    from pykdebugparser.kevent import from_kd_buf
+    evs = [from_kd_buf(bytes.fromhex(h)) for h in s['events']]
+    for i, e in enumerate(evs):
+        if e.timestamp == first_ts:
+            if e.func_qualifier != 1:
+                return i
+            for j in range(i + 1, len(evs)):
+                if evs[j].tid == e.tid and evs[j].eventid == e.eventid and evs[j].func_qualifier & 2:
+                    return j
+    return None
+
+
+def pc_oracle(case, got):
+    s = case['stream']
+    lines, err, firsts, err2 = pc_run(s)
+    if err != '-' or err2 != '-':
+        return ('process:raises', 'formatted_traces raised %s / traces raised %s' % (err, err2))
+    if len(lines) != len(firsts):
+        return ('process:line-count', '%d lines for %d traces' % (len(lines), len(firsts)))
+    for ln, (ts, tid, body) in zip(lines, firsts):
+        trig = pc_trigger(s, ts)
+        if trig is None:
+            return ('process:unknown-trigger', 'no event completes the trace stamped %d' % ts)
+        tp, pn = pc_expected_tables(s, trig)
+        proc = ('%s(%d)' % (pn.get(tp[tid], ''), tp[tid])) if tid in tp else 'Error: tid %d' % tid
+        exp = '%d ' % ts + ('%d' % tid).rjust(11) + ' ' + proc.ljust(34) + body
+        if ln != exp:
+            tp0, pn0 = pc_expected_tables(s, trig - 1)
+            proc0 = ('%s(%d)' % (pn0.get(tp0[tid], ''), tp0[tid])) if tid in tp0 else 'Error: tid %d' % tid
+            if proc0 != proc and ln == '%d ' % ts + ('%d' % tid).rjust(11) + ' ' + proc0.ljust(34) + body:
+                return ('process:stale-tables', 'line %r is formatted with the tables BEFORE its trigger event (expected %r)'
+                        % (ln, proc))
+            return ('process:wrong-process', 'trace stamped %d of thread %d: line %r, the dump declares %r at that point'
+                    % (ts, tid, ln, proc))
+    return None
+
+
+def pc_kevent_stream(s):
+    """The same dump as an input of the event-line section (formatted_kevents never runs the decoders)."""
+    evs = []
+    for h in s['events']:
+        b = bytes.fromhex(h)
+        evs.append([int.from_bytes(b[:8], 'little'), int.from_bytes(b[40:48], 'little'), int.from_bytes(b[48:52], 'little'),
+                    b[8:40].hex()])
+    return {'tmap': s['tmap'], 'events': evs, 'codes': [[int(k), v] for k, v in s['codes'].items()], 'time': [],
+            'default_none': False}
+
+
 # ---------------------------------------------------------------- callstacks
 
 def gen_callstacks(rng, n):
@@ -587,6 +795,15 @@ RULES = {
                    'ANSI escapes',
     'trace-lines-K7': 'finding stream: TRACE_STRING_PROC_EXIT names with carriage returns / trailing newlines; compared '
                       'text = colour off; the oracle renders colour on and reports trace:colour-rewrites-newlines',
+    'process-column': 'version-2 dumps (thread maps with re-declared threads, re-named pids and undeclared threads) whose streams '
+                      'hold new-thread / exec pairs (sometimes only the data or only the string record), terminate-pid records, '
+                      'sampler windows with one or two thread-info records (flag on and off) between syscalls, lookups and '
+                      'single-record traces of the re-declared threads; PyKdebugParser.formatted_traces consumed lazily (colour '
+                      'off); compared with the model: (first timestamp, thread, process text) of every line; oracle: an '
+                      'independent Python fold of the map-updating records up to and including the event that completed the '
+                      'trace; signature process:stale-tables when a line shows the tables before its trigger event',
+    'process-column-kevents': 'the same dumps through formatted_kevents (all columns on): the process column is the thread map '
+                              'alone — the map-updating records are not interpreted by the event listing',
     'callstack-texts': 'all 64 settings x Callstack/Frame tuples (0..12 frames, attributed and unattributed, 64-bit and '
                        'wider addresses) through _format_callstack',
     'log-lines': 'all 64 settings x colour on (FORCE_COLOR, raw escape sequences compared with the termcolor model) / off '
@@ -621,6 +838,14 @@ def correspondence(rep, rng, tier):
           if any(isinstance(e[3], str) for e in s['events'])]
     run_section(rep, 'trace-lines-K7', k7, trace_line, k7_impl, k7_oracle,
                 nontrivial_fn=lambda c, g: g.startswith('ok ') and len(g) > 3, rule=RULES['trace-lines-K7'])
+    pcs = gen_pc_streams(rng, 600 * k)
+    run_section(rep, 'process-column', [{'stream': x} for x in pcs], pc_line, pc_impl, pc_oracle,
+                nontrivial_fn=lambda c, g: g.startswith('ok ') and not g.startswith('ok - '),
+                kind_fn=lambda c, g: 'lines=%d' % min(8, len(g.split(' ;')[0].split(' ')) - 1),
+                rule=RULES['process-column'])
+    run_section(rep, 'process-column-kevents', [{'bits': '111111', 'stream': pc_kevent_stream(x)} for x in pcs[:200 * k]],
+                kevent_line, kevent_impl, kevent_oracle, nontrivial_fn=lambda c, g: g.startswith('ok ') and len(g) > 3,
+                rule=RULES['process-column-kevents'])
     run_section(rep, 'callstack-texts', product(gen_callstacks(rng, 12 * k)), cs_line, cs_impl, cs_oracle,
                 nontrivial_fn=lambda c, g: g.startswith('ok '), kind_fn=lambda c, g: 'frames=%d' % len(c['stream']['frames']),
                 rule=RULES['callstack-texts'])
@@ -645,6 +870,8 @@ SECTIONS = {
     'trace-lines': (trace_line, trace_impl, trace_oracle),
     'trace-lines-K7': (trace_line, k7_impl, k7_oracle),
     'callstack-texts': (cs_line, cs_impl, cs_oracle),
+    'process-column': (pc_line, pc_impl, pc_oracle),
+    'process-column-kevents': (kevent_line, kevent_impl, kevent_oracle),
     'log-lines': (log_line, log_impl, log_oracle),
 }
 
@@ -681,10 +908,14 @@ LEVEL_TEXT = ('Lean theorems over the statement-by-statement model of the four l
               'and all inputs: kevent_is_join, trace_is_join, callstack_is_join, log_is_join, column_off (+ trace / '
               'callstack / log variants), kevent_column_removed, header_column_removed, process_column_lookup, '
               'log_colour_transparent; trace_colour_transparent_partial under an explicit assumption on the highlighter. '
+              'Process column along the stream: thread_map_later_wins, tables_are_fold (the pipeline\'s tables after any prefix '
+              '= the declarative fold declaredTables), process_column_spec / trace_process_columns_spec (a line is formatted '
+              'with the tables as of its trigger event: name(pid) of the declared pid, Error: tid N when never declared), '
+              'kevent_process_column_spec (event lines: thread map alone), samples_thread_info_is_bit0. '
               'Model tied to the code by differential runs of formatted_kevents / formatted_traces / _format_callstack / '
               '_format_log for all 64 settings, colour on and off, and of the Python format primitives.')
 LEVEL_NOTE = ('Partial: colour transparency of trace lines assumes the highlighter can be erased (pygments rewrites carriage '
               'returns and edge newlines: known finding K7); the wall-clock branch of _format_timestamp is outside the '
-              'model; the table-evolution half of C14 (process_column_spec) is owned by another slice. Trusted: Lean kernel, '
+              'model. Trusted: Lean kernel, '
               'hand-written model of the builders and of Python format specs (diffed), pygments/termcolor as external.')
 TECHNIQUE = 'Lean 4 proof (builders = join of enabled columns, by cases on the six switches) + differential correspondence'
